@@ -27,7 +27,11 @@ CLAIM = hist.claim_name(4711, 1851)
 
 def shards(tier, seed):
     n = 12 if tier == "quick" else 48
-    return [{"name": f"defs-{i}of{n}", "i": i, "n": n, "tier": tier, "seed": seed} for i in range(n)]
+    out = [{"name": f"defs-{i}of{n}", "i": i, "n": n, "tier": tier, "seed": seed} for i in range(n)]
+    # what a gateway client delivers is a returned message too: hashes (and their absence) over the whole life of a client,
+    # a lost and re-established connection included
+    out += [{"name": f"client-{k}", "client": k, "tier": tier, "seed": seed} for k in ("ebyte", "yd", "waveshare", "actisense")]
+    return out
 
 
 def claimed_decoder(sources, **kw):
@@ -102,7 +106,107 @@ print(json.dumps(out))
 """
 
 
+def run_client(spec, acc):
+    """Clients with network mapping on / off; claims and data on the first connection, the link is lost, the same data
+    (with or without fresh claims) on the connection the client opens next."""
+    import asyncio
+    from .. import simgw, project
+    from .c12 import packetise
+    dbx = refdb.db()
+    rng = gen.rng_for(spec["seed"], ID, spec["name"])
+    kind = spec["client"]
+    quick = spec["tier"] == "quick"
+    sources = [10, 20, 30]
+    for rep in range(10 if quick else 120):
+        pool = hist.Pool(dbx, rng, n_single=6, n_fast=0 if kind == "actisense" else 2)
+        mapping = rep % 3 != 2
+        settings = {"build_network_map": True} if mapping else ({} if rep % 2 else {"build_network_map": False})
+        if rep % 4 == 1:
+            settings["preferred_units"] = {PhysicalQuantities.TEMPERATURE: "C", PhysicalQuantities.ANGLE: "deg"}
+        reclaim = rep % 2 == 0
+        names = {s_: hist.claim_name(rng.randrange((1 << 21) - 3), rng.choice([1851, 1855, 229, 137])) for s_ in sources}
+
+        def pk(ev):
+            if kind == "actisense":
+                return (wire.actisense_line(ev.prio, ev.pgn, ev.src, 255, ev.data) + "\r\n").encode()
+            return packetise(kind, ev, rng)
+        claims = [pk(hist.claim_event(s_, names[s_])) for s_ in sources]
+        data, keys = [], []
+        for _ in range(8):
+            d = rng.choice(pool.singles)
+            pb = pool.payload(d)
+            if pb is None:
+                continue
+            k_ = key_of(dbx, d, int.from_bytes(pb, "little"))
+            src = rng.choice(sources)
+            data.append(pk(hist.Ev(rng.randrange(8), d.pgn, src, 255, pb, "single", definition=d.id)))
+            keys.append((d.id, src, k_))
+        if not data:
+            continue
+        n_sessions = 2 + (rep % 5 == 0)
+
+        async def scenario(sim):
+            sim.spawn("connect")
+            await asyncio.sleep(0.05)
+            for c_no in range(n_sessions):
+                if len(sim.conns) <= c_no:
+                    return
+                conn = sim.conns[c_no]
+                conn.feed(b"".join((claims if (c_no == 0 or reclaim) else []) + data))
+                await asyncio.sleep(0.5)
+                if c_no == n_sessions - 1:
+                    break
+                if kind == "waveshare" or rep % 2:
+                    conn.reset(simgw.serial_loss_exception() if kind == "waveshare" else ConnectionResetError(104, "reset by peer"))
+                else:
+                    conn.feed_eof()
+                for _ in range(6000):
+                    if len(sim.conns) > c_no + 1 and sim.client.state.name == "CONNECTED":
+                        break
+                    await asyncio.sleep(0.01)
+                await asyncio.sleep(0.05)
+            await asyncio.sleep(1.0)
+            await sim.close_guarded()
+        sim, stats = simgw.run_session(kind, scenario, client_kwargs=settings)
+        acc.count("client_sessions_across_a_reconnect")
+        if stats["error"] or sim is None:
+            acc.inconclusive_because(f"simulator: {stats['error']}")
+            continue
+        if len(sim.conns) < n_sessions:
+            acc.count("second_connection_not_opened")
+            continue
+        got = [m for m in sim.received if m.PGN != 60928]
+        acc.case((kind, repr(sorted(settings)), reclaim, tuple(data)))
+        w = {"client": kind, "settings": repr(settings), "connections": len(sim.conns), "claims_repeated_on_later_connections": reclaim,
+             "delivered": len(got), "data_messages_sent_per_connection": len(data)}
+        if len(got) != len(data) * n_sessions:
+            acc.count("client_sessions_with_another_number_of_deliveries")      # C11 / C12 judge what is delivered; here: the hashes of what is
+        first_hash = {}
+        for n_, m in enumerate(got):
+            acc.count("client_delivered_hashes_checked")
+            if mapping:
+                acc.count("mapping_on_checked")
+                if m.hash is None:
+                    acc.violation("hash-missing-with-mapping-on", f"{kind} client created with network mapping on: delivered message {n_ + 1} of {len(got)} ({m.id}, "
+                                  f"{len(sim.conns)} connections in its life) has no hash", dict(w, position=n_ + 1, id=m.id))
+                    break
+                fk = (m.id, m.source, tuple((f.id, repr(f.raw_value)) for f in m.fields))
+                h0 = first_hash.setdefault(fk, m.hash)
+                acc.count("equal_key_pairs")
+                if h0 != m.hash:
+                    acc.violation("equal-key-different-hash", f"{kind} client: the same {m.id} message from source {m.source} has hash {h0} on one connection and {m.hash} on a later one",
+                                  dict(w, id=m.id))
+                    break
+            else:
+                acc.count("mapping_off_checked")
+                if m.hash is not None:
+                    acc.violation("hash-set-with-mapping-off", f"{kind} client created without network mapping delivered a {m.id} message with hash {m.hash}", dict(w, id=m.id))
+                    break
+
+
 def run_shard(spec, acc):
+    if spec.get("client"):
+        return run_client(spec, acc)
     dbx = refdb.db()
     rng = gen.rng_for(spec["seed"], ID, spec["name"])
     quick = spec["tier"] == "quick"
